@@ -125,7 +125,15 @@ class _CheckingJacobian(DictionaryJacobian):
         super().__init__(system)
 
     def _setup(self, system):
-        self._subjacs_info = self._subjacs_info.copy()
+        # use private copies of the metadata and of the values, so that the approximated columns
+        # and the 'uncovered_nz' bookkeeping don't leak into the component's own sub-jacobians.
+        subjacs_info = {}
+        for key, meta in self._subjacs_info.items():
+            meta = meta.copy()
+            if hasattr(meta['val'], 'copy'):  # ndarray or scipy sparse matrix
+                meta['val'] = meta['val'].copy()
+            subjacs_info[key] = meta
+        self._subjacs_info = subjacs_info
 
         self._setup_index_maps(system)
         self._subjacs = self._get_subjacs(system)
